@@ -11,6 +11,15 @@ def short(n):
     return re.sub(r"dual::dual(_ops::\w+)?::", "", n)
 
 
+def _noclos(k):
+    """A value key with closure identities dropped (two evaluations of the same body mint different closure objects)."""
+    if isinstance(k, tuple):
+        if len(k) == 2 and k[0] == "closure":
+            return ("closure",)
+        return tuple(_noclos(x) for x in k)
+    return k
+
+
 def run(ck, facts, tier):
     ev = cel.Ev(facts)
     # ---- R19.1 ordering depends only on the values, via f64::partial_cmp in operand order
@@ -115,7 +124,7 @@ def run(ck, facts, tier):
                                  "the truncated quotient is not trunc(one f64 division of the two values): %s" % hir.fmt(arg)[:160], "%s:%d" % (r["file"], r["line"]), sample="trunc(a.real / b.real)")
 
     # ---- R19.4 sum
-    r4 = ck.rule("R19.4", "Sum::sum = iter.fold(zero, |acc, x| acc + x) with a variable-free zero (left-to-right addition from zero)", floor=2)
+    r4 = ck.rule("R19.4", "Sum::sum = iter.fold(zero, |acc, x| acc + x) with a variable-free zero (left-to-right addition from zero); the container folds from F64(0.0) with its own +", floor=3)
     for num in NUMS:
         rs = [r for r in facts.all_fns() if r.get("trait_item") == "std::iter::Sum::sum" and r.get("self_ty") == num and r["sig"][0] == "I"]
         if not rs:
@@ -148,8 +157,36 @@ def run(ck, facts, tier):
         except Unsupported as e:
             ck.fail(r4, key, "rule could not be established (%s)" % e, where)
 
+    # the container's sum is the same fold: it starts from the plain-float zero (so the first item decides the kind, and a Dual2 sequence is not met by a Dual
+    # accumulator) and every step is the container's own `+` — one accumulator, so a kind mix is refused by that `+` exactly where R18 says it is
+    NUMBER = "dual::enums::Number"
+    rs = [r for r in facts.all_fns() if r.get("trait_item") == "std::iter::Sum::sum" and r.get("self_ty") == NUMBER and r["sig"][0] == "I"]
+    if not rs:
+        ck.fail(r4, "Sum for Number", "impl not found")
+    else:
+        r = rs[0]
+        where = "%s:%d" % (r["file"], r["line"])
+        try:
+            item = Sym("param", "x"); item.ty = NUMBER
+            acc = Sym("acc"); acc.ty = NUMBER
+            it = cel.Seq(Sym("param", "iter"), lambda idx, item=item: item)
+            got = cel.Ev(facts).apply_fn(r["fn"], [it], 0)
+            ok = isinstance(got, Sym) and got.tag[0] == "fold" and got.tag[1] == cel.vkey(Sym("param", "iter"))
+            why = "sum is not a single fold over the items: %s" % cel.vfmt(got)[:200]
+            if ok:
+                ok = got.tag[2] == cel.vkey(Sym("ctor", "F64", Poly.const(0)))
+                why = "the fold does not start from the plain-float zero F64(0.0)"
+            if ok:
+                add_fn = next(rr["fn"] for rr in facts.all_fns() if rr.get("trait_item") == "std::ops::Add::add" and rr.get("sig") == [NUMBER, NUMBER])
+                step = cel.Ev(facts).apply_fn(add_fn, [acc, item], 0)
+                ok = _noclos(got.tag[3]) == _noclos(cel.vkey(step))
+                why = "the fold step is not the container's `acc + item`"
+            ck.check(r4, "Sum for Number", ok, why, where, detail=cel.vfmt(got)[:300], sample="iter.fold(Number::F64(0.0), |acc, x| acc + x)")
+        except Unsupported as e:
+            ck.fail(r4, "Sum for Number", "rule could not be established (%s)" % e, where)
+
     # ---- R19.5 identities
-    r5 = ck.rule("R19.5", "zero() = new(0, []) and one() = new(1, []): variable-free constants (neutral under the R01.1/R02.1 forms of + and *)", floor=4)
+    r5 = ck.rule("R19.5", "zero() = new(0, []) and one() = new(1, []): variable-free constants (neutral under the R01.1/R02.1 forms of + and *); the container's are F64(0.0)/F64(1.0)", floor=6)
     for num in NUMS:
         for ti, c in (("num_traits::Zero::zero", 0), ("num_traits::One::one", 1)):
             rs = [r for r in facts.all_fns() if r.get("trait_item") == ti and r.get("self_ty") == num]
@@ -164,6 +201,20 @@ def run(ck, facts, tier):
             except Unsupported as e:
                 ok, v = False, e
             ck.check(r5, key, ok, "identity element is not the variable-free constant %d: %s" % (c, v), "%s:%d" % (r["file"], r["line"]), sample="new(%d.0, [])" % c)
+    # the container's identities are the plain-float constants: a Dual or Dual2 identity would refuse (R18) the other kind in `zero() + x` / `one() * x`
+    for ti, c in (("num_traits::Zero::zero", 0), ("num_traits::One::one", 1)):
+        rs = [r for r in facts.all_fns() if r.get("trait_item") == ti and r.get("self_ty") == "dual::enums::Number"]
+        key = "%s for Number" % ti.rsplit("::", 1)[-1]
+        if not rs:
+            ck.fail(r5, key, "impl not found")
+            continue
+        r = rs[0]
+        try:
+            v = ev.apply_fn(r["fn"], [], 0)
+            ok = cel.vkey(v) == cel.vkey(Sym("ctor", "F64", Poly.const(c)))
+        except Unsupported as e:
+            ok, v = False, e
+        ck.check(r5, key, ok, "identity element is not the plain float F64(%d.0): %s" % (c, cel.vfmt(v)[:160] if not isinstance(v, Exception) else v), "%s:%d" % (r["file"], r["line"]), sample="Number::F64(%d.0)" % c)
     # neutrality as a consequence: plug the constant into the oracle rows
     u = cel.operand("u", "dual::dual::Dual2")
     z = Rec("dual::dual::Dual2", {"real": Poly.const(0), "dual": Poly({}, 1), "dual2": Poly({}, 2)})
